@@ -476,6 +476,23 @@ class World:
         acks = (BIG_ACK + self.next_pid,) if mcfg["acks"] else None
         outgoing = kind in ("C", "P") and not mcfg.get("inbound")
         self.next_pid += 1
+        if mcfg.get("resent"):
+            flags |= int(PacketFlags.RESENT)
+        if mcfg.get("pid") is not None:
+            # an explicit packet id: the two directions of a circuit number their packets independently, so the same id
+            # legitimately occurs once per direction
+            saved_next, self.next_pid = self.next_pid, int(mcfg["pid"])
+            try:
+                return self._build_datagram(mcfg, kind, flags, acks, outgoing)
+            finally:
+                self.next_pid = saved_next
+        return self._build_datagram(mcfg, kind, flags, acks, outgoing)
+
+    def _build_datagram(self, mcfg, kind, flags, acks, outgoing):
+        from hippolyzer.lib.base.datatypes import UUID, Vector3
+        from hippolyzer.lib.base.message.message import Block, Message
+        from hippolyzer.lib.base.network.transport import Direction, UDPPacket
+        from hippolyzer.lib.proxy.transport import SOCKS5UDPTransport
         if outgoing:
             msg = Message(
                 "ChatFromViewer",
@@ -988,6 +1005,47 @@ def suite_waits(ctx):
     return res
 
 
+def suite_same_id(ctx):
+    """the two directions of a circuit number their packets independently: what happened to packet N of one direction (claimed,
+    dropped, taken, resent) says nothing about packet N of the other direction, which - unclaimed - is forwarded exactly once"""
+    res = CorrResult(suite="same packet id in both directions: an unclaimed message is forwarded whatever happened to its namesake (impl-level oracle)",
+                     rule="first a reliable chat in one direction with packet id N handled by an addon behaviour (falsy, drop, take, send, "
+                          "raise), then a RELIABLE (+RESENT or not) chat in the OTHER direction with the same id N and no claimer, then the "
+                          "first one again as a resend: the second datagram must reach the wire exactly once")
+    n = 0
+    seen = set()
+    for first_in in (0, 1):
+        for beh in ("0", "D0", "T0", "S0", "x", "T1"):
+            for resent in (0, 1):
+                for rel2 in (1, 0):
+                    n += 1
+                    m1 = {"kind": "P", "ncmd": 0, "rel": 1, "acks": 0, "pid": 4242, "mods": [[["-", beh, "-"]]]}
+                    m2 = {"kind": "P", "ncmd": 0, "rel": rel2, "acks": 0, "pid": 4242, "resent": resent, "mods": [[["-", "0", "-"]]]}
+                    m3 = dict(m1, resent=1, mods=[[["-", "0", "-"]]])
+                    if first_in:
+                        m1["inbound"] = 1
+                        m3["inbound"] = 1
+                    else:
+                        m2["inbound"] = 1
+                    case = {"msgs": [m1, m2, m3]}
+                    line, traces = run_impl(case)
+                    if line.startswith("EXC:") or len(traces) < 2:
+                        if "harness" not in seen:
+                            seen.add("harness")
+                            res.disagreements.append({"case": case, "impl": line[:300]})
+                        continue
+                    toks = [t for t in traces[1] if not t.startswith("!")]
+                    n_orig = sum(1 for t in toks if t.startswith("O"))
+                    if n_orig != 1 and "same-id-other-direction" not in seen:
+                        seen.add("same-id-other-direction")
+                        res.impl_violations.append({"clause": "exactly once unless an addon or the command channel claimed it (packet ids are per "
+                                                              "direction)", "class": "same-id-other-direction", "case": case, "msg_index": 1,
+                                                    "sends": n_orig, "trace": " ".join(toks), "kind": "same-id"})
+    res.evaluations = n
+    res.distinct_nontrivial = n
+    return res
+
+
 def suite_special(ctx):
     """message types the proxy itself acts on (circuit teardown, handshake, main-region change, group update) are still just
     proxied messages: unclaimed - every hook returns falsy or raises - each is put on the wire exactly once, towards the other
@@ -1071,7 +1129,7 @@ def suite_special(ctx):
 def correspond(ctx):
     try:
         r = _correspond(ctx)
-        return (r if isinstance(r, list) else [r]) + [suite_waits(ctx), suite_special(ctx)]
+        return (r if isinstance(r, list) else [r]) + [suite_waits(ctx), suite_special(ctx), suite_same_id(ctx)]
     finally:
         _Env.close()
 
@@ -1351,6 +1409,9 @@ def replay(ctx, case):
             impl, _ = run_impl(case["case"])
             return impl.strip() != case["model"].strip(), {"impl": impl.strip(), "model": case["model"]}
         c = case.get("case", case) if isinstance(case, dict) else case
+        if isinstance(case, dict) and case.get("kind") == "same-id":
+            r = suite_same_id(ctx)
+            return (True, r.impl_violations[0]) if r.impl_violations else (False, "holds")
         if isinstance(case, dict) and case.get("kind") == "special":
             r = suite_special(ctx)
             for v in r.impl_violations:
